@@ -680,7 +680,7 @@ def _entities(repo, rep):
     """the quote entity: char2entity maps a character to a reference to
     that very character"""
     f = repo.func("chameleon.utils.char2entity")
-    t = " ".join(src(x) for x in f.node.body)
+    t = L.text(f.node, body_only=True)
     rep.check("cp = ord(c)" in t and
               "name = htmlentitydefs.codepoint2name.get(cp)" in t and
               "return '&%s;' % name if name is not None else '&#%d;' % cp"
